@@ -260,12 +260,16 @@ func ruleAppTags(w *World, c *Check, rule string) {
 		if strings.HasSuffix(fn.Pkg.Pkg.Path(), "/examples") || strings.HasSuffix(fn.Pkg.Pkg.Path(), "/asn1tools") {
 			continue
 		}
+		if newHelper(fn) {
+			continue // its sites are attributed, with the arguments it is called with, to its callers
+		}
 		fa := NewFuncAn(w, fn)
 		fk := FuncKey(fn)
 		var nums []int
 		var sites []string
-		for _, ci := range fa.Calls(`asn1tools\.AddASNAppTag`) {
-			a := fa.CallArgs(ci)
+		for _, dc := range fa.CallsDeep(`asn1tools\.AddASNAppTag`) {
+			ci := dc.ci
+			a := dc.fa.CallArgs(ci)
 			if n, err := strconv.Atoi(a[1]); err == nil {
 				nums = append(nums, n)
 			} else {
@@ -273,8 +277,9 @@ func ruleAppTags(w *World, c *Check, rule string) {
 			}
 			sites = append(sites, w.Pos(InstrPos(ci)))
 		}
-		for _, ci := range fa.Calls(`github\.com/jcmturner/gofork/encoding/asn1\.UnmarshalWithParams`) {
-			a := fa.CallArgs(ci)
+		for _, dc := range fa.CallsDeep(`github\.com/jcmturner/gofork/encoding/asn1\.UnmarshalWithParams`) {
+			ci := dc.ci
+			a := dc.fa.CallArgs(ci)
 			m := regexpFind(`^fmt\.Sprintf\("application,(?:explicit,)?tag:%[vd]", \[(\d+)\]\)$`, a[2])
 			if m == "" {
 				m = regexpFind(`^"application,(?:explicit,)?tag:(\d+)"$`, a[2])
@@ -425,20 +430,22 @@ func ruleShadows(w *World, c *Check, rule string) {
 				c.Missing(rule, uk)
 				continue
 			}
-			fa := NewFuncAn(w, uf)
+			fa0 := NewFuncAn(w, uf)
 			restored := map[string]bool{}
-			for _, b := range uf.Blocks {
-				for _, in := range b.Instrs {
-					st, ok := in.(*ssa.Store)
-					if !ok {
-						continue
-					}
-					v := fa.R.R(st.Val)
-					a := fa.R.R(st.Addr)
-					for i := 0; i < ss.NumFields(); i++ {
-						n := ss.Field(i).Name()
-						if strings.HasSuffix(a, "."+n) && fullMatch(`local<`+q(sp+"."+sn)+`>(#\d+)?\.`+n+`(\..*)?`, v) {
-							restored[n] = true
+			for _, fa := range fa0.withNewHelpers() {
+				for _, b := range fa.Fn.Blocks {
+					for _, in := range b.Instrs {
+						st, ok := in.(*ssa.Store)
+						if !ok {
+							continue
+						}
+						v := fa.R.R(st.Val)
+						a := fa.R.R(st.Addr)
+						for i := 0; i < ss.NumFields(); i++ {
+							n := ss.Field(i).Name()
+							if strings.HasSuffix(a, "."+n) && fullMatch(`local<`+q(sp+"."+sn)+`>(#\d+)?\.`+n+`(\..*)?`, v) {
+								restored[n] = true
+							}
 						}
 					}
 				}
@@ -448,12 +455,14 @@ func ruleShadows(w *World, c *Check, rule string) {
 				if _, isRaw := sr.raw[f.Name()]; isRaw {
 					// decoded through a helper from the raw bytes
 					used := false
-					for _, b := range uf.Blocks {
-						for _, in := range b.Instrs {
-							if ci, ok := in.(ssa.CallInstruction); ok {
-								for _, a := range fa.CallArgs(ci) {
-									if fullMatch(`local<`+q(sp+"."+sn)+`>(#\d+)?\.`+f.Name()+`(\.Bytes)?`, a) {
-										used = true
+					for _, fa := range fa0.withNewHelpers() {
+						for _, b := range fa.Fn.Blocks {
+							for _, in := range b.Instrs {
+								if ci, ok := in.(ssa.CallInstruction); ok {
+									for _, a := range fa.CallArgs(ci) {
+										if fullMatch(`local<`+q(sp+"."+sn)+`>(#\d+)?\.`+f.Name()+`(\.Bytes)?`, a) {
+											used = true
+										}
 									}
 								}
 							}
@@ -626,16 +635,18 @@ func runC13(w *World, c *Check) {
 		fa := NewFuncAn(w, fn)
 		// the byte index and the shift amount
 		var idx, shift string
-		for _, b := range fn.Blocks {
-			for _, in := range b.Instrs {
-				switch x := in.(type) {
-				case *ssa.IndexAddr:
-					if strings.HasSuffix(fa.R.R(x.X), ".Bytes") {
-						idx = fa.R.R(x.Index)
-					}
-				case *ssa.BinOp:
-					if x.Op.String() == "<<" {
-						shift = fa.R.R(x.Y)
+		for _, a := range fa.withNewHelpers() {
+			for _, b := range a.Fn.Blocks {
+				for _, in := range b.Instrs {
+					switch x := in.(type) {
+					case *ssa.IndexAddr:
+						if strings.HasSuffix(a.R.R(x.X), ".Bytes") && a == fa {
+							idx = a.R.R(x.Index)
+						}
+					case *ssa.BinOp:
+						if x.Op.String() == "<<" && shift == "" {
+							shift = a.R.R(x.Y)
+						}
 					}
 				}
 			}
